@@ -259,14 +259,14 @@ func battery(f *slicez.FlexSlice[int], m []int, st *fstats) (kind, what string) 
 		_, stack, p := common.Catch(func() { gv, ok = f.Get(i) })
 		st.queries++
 		if p {
-			return "Get|panic", fmt.Sprintf("Get(%d) panicked at %s", i, common.PanicSite(stack))
+			return "Get|panic", fmt.Sprintf("Get(%d) on %v panicked at %s", i, m, common.PanicSite(stack))
 		}
 		wv, wok := 0, false
 		if i >= 0 && i < len(m) {
 			wv, wok = m[i], true
 		}
 		if gv != wv || ok != wok {
-			return "Get|wrong-return", fmt.Sprintf("Get(%d) = (%d, %v), want (%d, %v)", i, gv, ok, wv, wok)
+			return "Get|wrong-return", fmt.Sprintf("Get(%d) on %v = (%d, %v), want (%d, %v)", i, m, gv, ok, wv, wok)
 		}
 	}
 	return "", ""
@@ -325,7 +325,7 @@ func alphabet(n, sizeCap int) []fop {
 
 func goTestFor(root rootT, path []fop) string {
 	var b strings.Builder
-	b.WriteString("func TestReplay(t *testing.T) { next := 1; fresh := func(k int) []int { v := make([]int, k); for i := range v { v[i] = next; next++ }; return v }; ")
+	b.WriteString("func TestReplay(t *testing.T) { next := 1; fresh := func(k int) []int { v := make([]int, k); for i := range v { v[i] = next; next++ }; return v }; _ = fresh; ")
 	if root.zero {
 		b.WriteString("f := slicez.FlexSlice[int]{}; ")
 	} else {
@@ -454,7 +454,11 @@ func (s *searcher) search(label string, roots []rootT) searchResult {
 				}
 				key := canon(f) // before the query battery
 				if k, w := battery(f, m, &st); k != "" {
-					report(o, opName(o)+"|"+k+"-afterwards", w)
+					if strings.HasPrefix(k, "Get|") { // the query itself is the entry point
+						report(o, k, w)
+					} else {
+						report(o, opName(o)+"|"+k+"-afterwards", w)
+					}
 					continue
 				}
 				out[fi] = append(out[fi], succ{key, o, len(f.Values), cap(f.Values)})
